@@ -13,7 +13,20 @@ LEVEL_TEXT = ("For every tree with arbitrary attribute dictionaries (abstract va
 LEVEL_NOTE = ("Trusted: Lean kernel, standard axioms; the mirror lean/Anytree/Model/Dict.lean; attribute values are abstract (anytree "
               "never inspects them); dict semantics (insertion order, key overwrite) modelled by association lists; dictcls other "
               "than dict/OrderedDict and attribute keys 'parent'/'children' are outside the property.")
-THEOREMS = []
+THEOREMS = [
+    ("Anytree.Props.C10.dictOf_unique", "full"),
+    ("Anytree.Props.C10.clean_attrs_fixed", "full"),
+    ("Anytree.Props.C10.exportF_eq_plain_view", "full"),
+    ("Anytree.Props.C10.exportF_eq_plain_view_of", "full"),
+    ("Anytree.Props.C10.export_default", "full"),
+    ("Anytree.Props.C10.view_default", "full"),
+    ("Anytree.Props.C10.export_maxlevel_le_one", "full"),
+    ("Anytree.Props.C10.import_export", "full"),
+    ("Anytree.Props.C10.import_export_node", "full"),
+    ("Anytree.Props.C10.export_import", "full"),
+    ("Anytree.Props.C10.import_anyNode_total", "full"),
+    ("Anytree.Props.C10.import_node_missing_name", "full"),
+]
 NOT_COVERED = []
 PREDICATE_SPEC = True
 RULE = ("all shapes up to N nodes (quick 4, thorough 6) and random shapes up to 11/29 nodes, random attribute dictionaries (0-4 keys, "
